@@ -134,6 +134,14 @@ def classify(body):
     if not idx:
         return "none"
     if any(i is None for _, i, _ in idx):
+        # `let first = if labels[0] < labels[1] { 0 } else { 1 }; use(labels[first]); use(labels[1 - first])`: the positions are
+        # computed, but what decides them is the comparison of the two whole labels
+        if lits and lits <= {0, 1}:
+            for n in dwalk(body):
+                if n.get("k") == "Binary" and n.get("op") in ("Lt", "Le", "Gt", "Ge"):
+                    pa, pb = peel(n["a"]), peel(n["b"])
+                    if pa.get("k") == "Index" and pb.get("k") == "Index" and {lit_of(pa["i"]), lit_of(pb["i"])} == {0, 1}:
+                        return "pair-unordered"
         return "positional-loop"
     if lits == {0}:
         return "single"
@@ -294,8 +302,27 @@ def forms_of(fn):
     if len(ms) != 1:
         return None, f"expected one `match labels.len()`, found {len(ms)}"
     _DISPATCH[fn.path] = ms[0]
+    # `if labels.len() == 0 { return .. }` ahead of the match is the arm of the empty class
+    _LETS.clear()
+    for st in dwalk(fn.hir):
+        if st.get("k") in ("Let", "Local") and isinstance(st.get("pat"), dict) and st["pat"].get("k") == "Bind" and st.get("init") and "Mut" not in str(st["pat"].get("mode", "")).split(",")[-1]:
+            _LETS[(st["pat"].get("name"), st["pat"].get("id"))] = st["init"]
+    empty_first = None
+    for ret, cond in early_exits(fn, ms[0]):
+        if cond is None or not cond[1]:
+            continue
+        c_ = peel(cond[0])
+        if c_.get("k") == "Binary" and c_.get("op") == "Eq":
+            sides = [_unalias(peel(c_["a"])), _unalias(peel(c_["b"]))]
+            if any(x.get("k") == "Lit" and x.get("int") == 0 for x in sides) and any(x.get("k") == "MethodCall" and x.get("name") == "len" and "label" in repr(field_chain(peel(x["recv"]))).lower() or (x.get("k") == "MethodCall" and x.get("name") == "len" and "label" in str(_unalias(peel(x["recv"])).get("name", "")).lower()) for x in sides):
+                empty_first = ret
+        elif c_.get("k") == "MethodCall" and c_.get("name") == "is_empty" and "label" in (repr(field_chain(peel(c_["recv"]))) + str(_unalias(peel(c_["recv"])).get("name", ""))).lower():
+            empty_first = ret
     out = {}
     for cname, n in CLASSES.items():
+        if cname == "0" and empty_first is not None:
+            out[cname] = classify(empty_first.get("e") or {"k": "Tup"})
+            continue
         # all lengths of the class must take the same arm
         reps = {0: [0], 1: [1], 2: [2], 3: [3, 5, 7], 8: [8, 9, 1000]}[n]
         arms = set()
